@@ -349,6 +349,20 @@ fn run_case(case: &str, repeat: usize) -> String {
                     seen.push(o);
                 }
             }
+            // how the REAL can_be_ignored classifies each listed outcome ('-' for None): the driver
+            // judges the observations with the model's table only where the two agree
+            let bits: String = fibers
+                .iter()
+                .map(|(_, o)| match o {
+                    None => '-',
+                    Some(Ok(v)) => if hooks::can_be_ignored::<u64>(&Ok(*v)) { '1' } else { '0' },
+                    Some(Err(e)) => {
+                        let r: Result<u64, RequestError> = Err(e.clone());
+                        if hooks::can_be_ignored(&r) { '1' } else { '0' }
+                    }
+                })
+                .collect();
+            seen.push(format!("c={}", if bits.is_empty() { "-".to_string() } else { bits }));
             seen.join(" ")
         }
         Some("P") if f.len() == 5 => {
